@@ -29,8 +29,9 @@ if os.path.realpath(REPO) != "/repo":
     # evidence and replays of a scratch run never overwrite those of /repo
     EVID = os.path.join(_alt, "evidence")
     REPLAYS = os.path.join(_alt, "replays")
-EVID = os.path.join(VERIF, "evidence")
-REPLAYS = os.path.join(VERIF, "replays")
+else:
+    EVID = os.path.join(VERIF, "evidence")
+    REPLAYS = os.path.join(VERIF, "replays")
 sys.path.insert(0, os.path.join(VERIF, "tools"))
 
 STD_AXIOMS = {
